@@ -13,7 +13,7 @@ func (p *Parser) parseExtends(parser *Parser) (Node, error) {
 	}
 
 	// Expect the block end token
-	if parser.tokenIndex >= len(parser.tokens) || parser.tokens[parser.tokenIndex].Type != TOKEN_BLOCK_END {
+	if parser.tokenIndex >= len(parser.tokens) || !isBlockEndToken(parser.tokens[parser.tokenIndex].Type) {
 		return nil, fmt.Errorf("expected block end token after extends at line %d", extendsLine)
 	}
 	parser.tokenIndex++
